@@ -29,6 +29,19 @@ Proof. destruct l; [congruence | reflexivity]. Qed.
 Lemma last_cons {A} (x : A) l d : l <> [] -> last (x :: l) d = last l d.
 Proof. destruct l; [congruence | reflexivity]. Qed.
 
+Lemma last_app_ne {A} (a b : list A) d : b <> [] -> last (a ++ b) d = last b d.
+Proof.
+  intros Hb. induction a as [|x a IH]; [reflexivity|].
+  cbn [app]. rewrite last_cons; [exact IH | destruct a; [cbn; exact Hb | discriminate]].
+Qed.
+
+Lemma removelast_length {A} (l : list A) : length (removelast l) = length l - 1.
+Proof.
+  induction l as [|x l IH]; [reflexivity|].
+  destruct l as [|y l]; [reflexivity|].
+  rewrite removelast_cons by discriminate. cbn [length] in *. lia.
+Qed.
+
 (* ------------------------------------------------------------------ chunks *)
 Lemma chunk_acc_nonempty W r s : chunk_acc W r s <> [].
 Proof.
@@ -203,11 +216,20 @@ Proof.
   unfold app_state, line_feed. cbn [t_col t_above t_cur t_below t_vis].
   rewrite line_feed_vis by lia.
   assert (Hrev : last R [] :: rev (d ++ removelast R) = rev (d ++ R)).
-  { rewrite (app_removelast_last [] Hne) at 2. rewrite app_assoc, rev_app_distr. reflexivity. }
+  { transitivity (rev ((d ++ removelast R) ++ [last R []])).
+    - rewrite (rev_app_distr (d ++ removelast R) [last R []]). reflexivity.
+    - rewrite <- app_assoc, <- app_removelast_last by exact Hne. reflexivity. }
   destruct (k - (length R - 1)) as [|k'] eqn:Hk; cbn [repeat].
   - rewrite Hrev. replace (k - length R) with 0 by lia. cbn [repeat length]. f_equal. lia.
   - rewrite Hrev. replace (k - length R) with k' by lia. cbn [length]. f_equal. lia.
 Qed.
+
+Lemma run_ops_cons W H t o ops : run_ops W H t (o :: ops) = run_ops W H (exec W H t o) ops.
+Proof. reflexivity. Qed.
+Lemma run_ops_app W H t a b : run_ops W H t (a ++ b) = run_ops W H (run_ops W H t a) b.
+Proof. unfold run_ops. apply fold_left_app. Qed.
+Lemma run_ops_nil W H t : run_ops W H t [] = t.
+Proof. reflexivity. Qed.
 
 (* ------------------------------------------------------------------ cursor movement *)
 Lemma move_up_shape : forall k t, k <= t_vis t -> k <= length (t_above t) ->
@@ -246,7 +268,7 @@ Proof.
   - destruct ys; [|cbn in Hys; lia]. cbn. now rewrite Nat.add_0_r.
   - destruct ys as [|y ys]; [cbn in Hys; lia|].
     change (clear_loop (S (S k))) with (TClear :: TDown 1 :: clear_loop (S k)).
-    unfold run_ops. cbn [fold_left]. fold (run_ops W H).
+    rewrite !run_ops_cons.
     cbn [exec t_above t_cur t_below t_col t_vis].
     replace (Nat.min (N.to_nat 1) (H - 1 - v)) with 1 by lia.
     cbn [move_down app t_above t_cur t_below t_col t_vis].
@@ -263,8 +285,8 @@ Lemma erase_raw W H (n : N) t : (1 <= n)%N ->
   = mkterm (skipn (N.to_nat n - 1) (t_above t)) []
            (repeat [] (N.to_nat n - 1) ++ t_below t) 0 (t_vis t - (N.to_nat n - 1)).
 Proof.
-  intros Hn Hv Hl Hh. unfold clear_ops, run_ops.
-  cbn [fold_left]. rewrite fold_left_app. cbn [fold_left]. fold (run_ops W H).
+  intros Hn Hv Hl Hh. unfold clear_ops.
+  rewrite run_ops_cons, run_ops_app, run_ops_cons, run_ops_nil.
   cbn [exec]. replace (N.to_nat (n - 1)) with (N.to_nat n - 1) by lia.
   set (j := N.to_nat n - 1) in *.
   replace (Nat.min j (t_vis t)) with j by lia.
@@ -276,3 +298,511 @@ Qed.
 
 Lemma clear_ops_zero W H t : run_ops W H t (clear_ops 0) = t.
 Proof. cbn. now destruct t. Qed.
+
+(* ------------------------------------------------------------------ more on chunks: filler, heights *)
+Lemma chunks_total_le W s : 1 <= W -> length s <= length (chunks W s) * W.
+Proof.
+  intros HW. remember (length s) as n eqn:Hn. revert s Hn.
+  induction n as [n IH] using lt_wf_ind. intros s Hn.
+  rewrite chunks_unfold by assumption. rewrite <- Hn.
+  destruct (Nat.leb_spec n W) as [Hle|Hgt]; cbn [length].
+  - lia.
+  - specialize (IH (n - W) ltac:(lia) (skipn W s) ltac:(rewrite skipn_length; lia)). lia.
+Qed.
+
+Lemma chunks_filler_equiv W : 1 <= W -> forall s m,
+  length s + m = length (chunks W s) * W ->
+  rows_equiv W (chunks W (s ++ repeat SP m)) (chunks W s)
+  /\ length (chunks W (s ++ repeat SP m)) = length (chunks W s)
+  /\ Forall (fun x => length x = W) (chunks W (s ++ repeat SP m)).
+Proof.
+  intros HW s. remember (length s) as n eqn:Hn. revert s Hn.
+  induction n as [n IH] using lt_wf_ind. intros s Hn m Hm.
+  rewrite (chunks_unfold W s) in * by assumption. rewrite <- Hn in *.
+  rewrite (chunks_unfold W (s ++ repeat SP m)) by assumption.
+  rewrite app_length, repeat_length, <- Hn.
+  destruct (Nat.leb_spec n W) as [Hle|Hgt].
+  - cbn [length] in Hm. destruct (Nat.leb_spec (n + m) W); [|lia].
+    unfold rows_equiv. cbn [map length]. unfold pad.
+    rewrite app_length, repeat_length, <- Hn.
+    replace (W - (n + m)) with 0 by lia. replace (W - n) with m by lia.
+    cbn [repeat]. rewrite app_nil_r. repeat split.
+    constructor; [|constructor]. rewrite app_length, repeat_length. lia.
+  - cbn [length] in Hm. destruct (Nat.leb_spec (n + m) W); [lia|].
+    rewrite firstn_app, skipn_app. replace (W - length s) with 0 by lia.
+    cbn [firstn skipn]. rewrite app_nil_r.
+    destruct (IH (n - W) ltac:(lia) (skipn W s) ltac:(rewrite skipn_length; lia) m) as (He & Hl & Hf).
+    { lia. }
+    unfold rows_equiv in *. cbn [map length]. rewrite He, Hl. repeat split.
+    constructor; [|exact Hf]. rewrite firstn_length. lia.
+Qed.
+
+Local Open Scope N_scope.
+Lemma wrapped_height_chunks (l : line) (W : N) : 1 <= W ->
+  wrapped_height l W = N.of_nat (length (chunks (N.to_nat W) (lt l))).
+Proof.
+  intros HW. unfold wrapped_height, lwidth, tlen.
+  rewrite chunks_length by lia.
+  rewrite Nat2N.inj_max, Nat2N.inj_div. f_equal. f_equal; lia.
+Qed.
+
+Lemma filler_length (l : line) (W : N) : 1 <= W ->
+  (length (lt l) + length (filler l W))%nat
+  = (length (chunks (N.to_nat W) (lt l)) * N.to_nat W)%nat.
+Proof.
+  intros HW. unfold filler, spaces. rewrite repeat_length.
+  rewrite wrapped_height_chunks by assumption. unfold lwidth, tlen.
+  pose proof (chunks_total_le (N.to_nat W) (lt l) ltac:(lia)) as Hle.
+  nia.
+Qed.
+
+Lemma visual_line_count_acc ls W : forall a,
+  fold_left (fun acc l => acc + wrapped_height l W) ls a = a + visual_line_count ls W.
+Proof.
+  unfold visual_line_count. induction ls as [|l ls IH]; intros a; cbn [fold_left].
+  - lia.
+  - rewrite IH, (IH (0 + _)). lia.
+Qed.
+
+Lemma visual_line_count_cons l ls W :
+  visual_line_count (l :: ls) W = wrapped_height l W + visual_line_count ls W.
+Proof. unfold visual_line_count at 1. cbn [fold_left]. now rewrite visual_line_count_acc. Qed.
+
+Lemma visual_line_count_app a b W :
+  visual_line_count (a ++ b) W = visual_line_count a W + visual_line_count b W.
+Proof.
+  induction a as [|x a IH]; cbn [app]; [reflexivity|].
+  rewrite !visual_line_count_cons, IH. lia.
+Qed.
+
+(** C19 (a): [visual_line_count] is the number of rows [wrap] produces *)
+Lemma visual_line_count_wrap ls W : 1 <= W ->
+  visual_line_count ls W = N.of_nat (length (wrap (N.to_nat W) (map lt ls))).
+Proof.
+  intros HW. induction ls as [|l ls IH].
+  - reflexivity.
+  - rewrite visual_line_count_cons, IH. unfold wrap. cbn [map concat].
+    rewrite app_length, wrapped_height_chunks by assumption. lia.
+Qed.
+Local Open Scope nat_scope.
+
+(* ------------------------------------------------------------------ (a) str_spec / line_spec *)
+Lemma ready_vis W H C t : ready W H C t -> t_vis t <= H - 1.
+Proof. intros [k v Hv | d r k v _ _ Hv]; exact Hv. Qed.
+
+Lemma ready_row W H C t : 1 <= W -> ready W H C t ->
+  next_cell W t = (length C, 0).
+Proof.
+  intros HW [k v Hv | d r k v HC Hr Hv]; unfold next_cell, t_row, app_state;
+    cbn [t_col t_above length].
+  - destruct (Nat.leb_spec W 0); [lia|]. now rewrite rev_length.
+  - destruct (Nat.leb_spec W (length r)); [|lia].
+    rewrite rev_length, HC, app_length. cbn [length]. f_equal. lia.
+Qed.
+
+Lemma ready_all_rows W H C t : ready W H C t ->
+  exists k, all_rows t = C ++ repeat [] k.
+Proof.
+  intros [k v Hv | d r k v HC Hr Hv]; unfold all_rows, app_state; cbn [t_above t_cur t_below].
+  - exists (S k). now rewrite rev_involutive.
+  - exists k. rewrite rev_involutive, HC, <- app_assoc. reflexivity.
+Qed.
+
+(** the cursor at the end of the last row of the written rows [X] *)
+Definition at_end (X : list row) (k v : nat) : term := app_state (removelast X) (last X []) k v.
+
+Lemma at_end_app X R k v : R <> [] ->
+  app_state (X ++ removelast R) (last R []) k v = at_end (X ++ R) k v.
+Proof.
+  intros HR. unfold at_end. rewrite removelast_app by assumption.
+  rewrite last_app_ne by assumption. reflexivity.
+Qed.
+
+(** (a) writing a string from a ready cursor appends exactly its chunking into rows of W cells
+    (an empty string only from column 0) *)
+Lemma str_spec W H C t x : 1 <= W -> 1 <= H -> ready W H C t -> (x <> [] \/ t_col t = 0) ->
+  exists k, puts W H t x
+    = at_end (C ++ chunks W x) k (Nat.min (H - 1) (reach t + length (chunks W x) - 1)).
+Proof.
+  intros HW HH Hr Hx. pose proof (chunk_acc_length_pos W [] x) as Hpos. fold (chunks W x) in Hpos.
+  destruct Hr as [k v Hv | d r k v HC Hlen Hv].
+  - rewrite puts_app_state by (cbn; lia). cbv zeta. fold (chunks W x).
+    eexists. rewrite at_end_app by apply chunk_acc_nonempty.
+    unfold reach, app_state. cbn [t_vis t_col length Nat.eqb]. f_equal. lia.
+  - destruct Hx as [Hx | Hx]; [| unfold app_state in Hx; cbn in Hx; lia].
+    rewrite puts_app_state by lia. cbv zeta. rewrite chunk_acc_full by (assumption || lia).
+    rewrite removelast_cons, last_cons by apply chunk_acc_nonempty.
+    eexists. rewrite HC, <- !app_assoc. cbn [app].
+    change (d ++ r :: removelast (chunks W x)) with (d ++ [r] ++ removelast (chunks W x)).
+    rewrite app_assoc, at_end_app by apply chunk_acc_nonempty.
+    rewrite <- app_assoc. unfold reach, app_state. cbn [t_vis t_col length].
+    destruct (Nat.eqb_spec (length r) 0); [lia|]. f_equal. lia.
+Qed.
+
+Lemma exec_line_at_end W H X k v s : 1 <= W -> 1 <= H -> X <> [] ->
+  length (last X []) <= W -> v <= H - 1 ->
+  exec W H (at_end X k v) (TLine s)
+  = app_state (removelast X ++ chunk_acc W (last X []) s) []
+      (k - length (chunk_acc W (last X []) s))
+      (Nat.min (H - 1) (v + length (chunk_acc W (last X []) s))).
+Proof. intros HW HH HX Hl Hv. unfold at_end. now rewrite exec_line_app_state. Qed.
+
+(** (a) write_line from a ready cursor: the rows of the chunking, then column 0 of the next row *)
+Lemma line_spec W H C t x : 1 <= W -> 1 <= H -> ready W H C t -> (x <> [] \/ t_col t = 0) ->
+  let t' := exec W H t (TLine x) in
+  ready W H (C ++ chunks W x) t' /\ t_col t' = 0
+  /\ reach t' = Nat.min (H - 1) (reach t + length (chunks W x)).
+Proof.
+  intros HW HH Hr Hx. pose proof (chunk_acc_length_pos W [] x) as Hpos. fold (chunks W x) in Hpos.
+  destruct Hr as [k v Hv | d r k v HC Hlen Hv]; cbv zeta.
+  - rewrite exec_line_app_state by (cbn; lia). cbv zeta. fold (chunks W x).
+    split; [apply ready_start; lia|]. split; [reflexivity|].
+    unfold reach, app_state. cbn [t_vis t_col length Nat.eqb]. lia.
+  - destruct Hx as [Hx | Hx]; [| unfold app_state in Hx; cbn in Hx; lia].
+    rewrite exec_line_app_state by lia. cbv zeta. rewrite chunk_acc_full by (assumption || lia).
+    match goal with |- context [app_state ?a [] _ _] =>
+      replace a with (C ++ chunks W x) by (rewrite HC, <- app_assoc; reflexivity) end.
+    split; [apply ready_start; lia|]. split; [reflexivity|].
+    unfold reach, app_state. cbn [t_vis t_col length Nat.eqb].
+    destruct (Nat.eqb_spec (length r) 0); [lia|]. lia.
+Qed.
+
+(** terminal semantics: an EMPTY line written at the right edge only resolves the pending wrap *)
+Lemma line_spec_edge_empty W H C t : 1 <= W -> 1 <= H -> ready W H C t -> t_col t <> 0 ->
+  let t' := exec W H t (TLine []) in
+  ready W H C t' /\ t_col t' = 0 /\ reach t' = Nat.min (H - 1) (reach t).
+Proof.
+  intros HW HH Hr Hc. destruct Hr as [k v Hv | d r k v HC Hlen Hv]; cbv zeta.
+  - unfold app_state in Hc. cbn in Hc. congruence.
+  - rewrite exec_line_app_state by lia. cbv zeta. cbn [chunk_acc length].
+    rewrite <- HC. split; [apply ready_start; lia|]. split; [reflexivity|].
+    unfold reach, app_state. cbn [t_vis t_col length Nat.eqb].
+    destruct (Nat.eqb_spec (length r) 0); lia.
+Qed.
+
+(* ------------------------------------------------------------------ (b) erase_spec *)
+(** (b) the erase phase of draw_to_term: [F] = the n rows to erase, the last rows written.
+    Without the [below] flag the cursor is on the last of them (wrap-pending: [t_col t <> 0]),
+    with it on the blank row below them ([t_col t = 0]); n <= reach: cursor-up is not clamped.
+    Exactly the rows of [F] are blanked, [C] is untouched, the cursor is at column 0 of the
+    first erased row.  n = 0: nothing happens. *)
+Lemma erase_spec W H C F t (n : N) (below : bool) : 1 <= W -> 1 <= H ->
+  ready W H (C ++ F) t -> length F = N.to_nat n -> N.to_nat n <= reach t ->
+  (1 <= n)%N -> (if below then t_col t = 0 else t_col t <> 0) ->
+  let t' := run_ops W H t ((if below && (0 <? n)%N then [TUp 1] else []) ++ clear_ops n) in
+  ready W H C t' /\ t_col t' = 0 /\ reach t' = reach t - N.to_nat n.
+Proof.
+  intros HW HH Hr HF Hn Hpos Hb. cbv zeta. rewrite run_ops_app.
+  destruct (N.ltb_spec 0 n) as [_|]; [|lia]. rewrite andb_true_r.
+  destruct Hr as [k v Hv | d r k v HC Hlen Hv].
+  - destruct below; [|unfold app_state in Hb; cbn in Hb; congruence].
+    unfold reach, app_state in Hn. cbn [t_vis t_col Nat.eqb length] in Hn.
+    assert (HFne : F <> []) by (destruct F; [cbn in HF; lia | discriminate]).
+    rewrite run_ops_cons, run_ops_nil. unfold app_state.
+    cbn [exec t_vis length]. replace (Nat.min (N.to_nat 1) v) with 1 by lia.
+    assert (Hrev : rev (C ++ F) = last F [] :: rev (C ++ removelast F)).
+    { rewrite (app_removelast_last [] HFne) at 1. rewrite app_assoc, rev_app_distr. reflexivity. }
+    rewrite Hrev. cbn [move_up t_above t_cur t_below t_col t_vis].
+    rewrite erase_raw; cbn [t_above t_cur t_below t_col t_vis];
+      try rewrite rev_length, app_length, removelast_length; try lia.
+    rewrite rev_app_distr, skipn_app, rev_length, removelast_length, HF.
+    rewrite skipn_all2 by (rewrite rev_length, removelast_length; lia).
+    replace (N.to_nat n - 1 - (N.to_nat n - 1)) with 0 by lia. cbn [skipn app].
+    change ([] :: repeat [] k) with (repeat (@nil N) (S k)). rewrite <- repeat_app.
+    change (mkterm (rev C) [] (repeat [] (N.to_nat n - 1 + S k)) 0 (v - 1 - (N.to_nat n - 1)))
+      with (app_state C [] (N.to_nat n - 1 + S k) (v - 1 - (N.to_nat n - 1))).
+    split; [apply ready_start; lia|]. split; [reflexivity|].
+    unfold reach, app_state. cbn [t_vis t_col length Nat.eqb]. lia.
+  - destruct below; [unfold app_state in Hb; cbn in Hb; lia|].
+    rewrite run_ops_nil.
+    unfold reach, app_state in Hn. cbn [t_vis t_col] in Hn.
+    destruct (Nat.eqb_spec (length r) 0) as [|_]; [lia|].
+    assert (HFne : F <> []) by (destruct F; [cbn in HF; lia | discriminate]).
+    assert (Hd : d = C ++ removelast F).
+    { apply (f_equal (@removelast _)) in HC. rewrite removelast_app in HC by assumption.
+      rewrite removelast_last in HC. congruence. }
+    rewrite erase_raw; unfold app_state; cbn [t_above t_cur t_below t_col t_vis];
+      try rewrite rev_length, Hd, app_length, removelast_length; try lia.
+    rewrite Hd at 1. rewrite rev_app_distr, skipn_app, rev_length, removelast_length, HF.
+    rewrite skipn_all2 by (rewrite rev_length, removelast_length; lia).
+    replace (N.to_nat n - 1 - (N.to_nat n - 1)) with 0 by lia. cbn [skipn app].
+    rewrite <- repeat_app.
+    change (mkterm (rev C) [] (repeat [] (N.to_nat n - 1 + k)) 0 (v - (N.to_nat n - 1)))
+      with (app_state C [] (N.to_nat n - 1 + k) (v - (N.to_nat n - 1))).
+    split; [apply ready_start; lia|]. split; [reflexivity|].
+    unfold reach, app_state. cbn [t_vis t_col length Nat.eqb].
+    destruct (Nat.eqb_spec (length r) 0); lia.
+Qed.
+
+Lemma erase_spec_zero W H t (below : bool) :
+  run_ops W H t ((if below && (0 <? 0)%N then [TUp 1] else []) ++ clear_ops 0) = t.
+Proof. rewrite andb_false_r. cbn [app]. apply clear_ops_zero. Qed.
+
+(* ------------------------------------------------------------------ (c) the paint loop *)
+Lemma exec_str W H t s : exec W H t (TStr s) = puts W H t s.
+Proof. reflexivity. Qed.
+
+Lemma puts_app W H t a b : puts W H t (a ++ b) = puts W H (puts W H t a) b.
+Proof. unfold puts. apply fold_left_app. Qed.
+
+Lemma at_end_ready W H X k v : X <> [] -> length (last X []) = W -> v <= H - 1 ->
+  ready W H X (at_end X k v).
+Proof.
+  intros HX Hl Hv. unfold at_end. apply ready_edge; [|assumption|assumption].
+  now apply app_removelast_last.
+Qed.
+
+Lemma at_end_reach W X k v : 1 <= W -> length (last X []) = W -> reach (at_end X k v) = v + 1.
+Proof.
+  intros HW Hl. unfold reach, at_end, app_state. cbn [t_vis t_col]. rewrite Hl.
+  destruct (Nat.eqb_spec W 0); lia.
+Qed.
+
+Lemma Forall_last {A} (P : A -> Prop) l d : l <> [] -> Forall P l -> P (last l d).
+Proof.
+  intros Hne Hf. induction Hf as [|x l Hx Hf IH]; [congruence|].
+  destruct l as [|y l]; [exact Hx|]. rewrite last_cons by discriminate. apply IH. discriminate.
+Qed.
+
+Section Paint.
+  Variable W H : N.
+  Hypothesis HW : (1 <= W)%N.
+  Hypothesis HH : (1 <= H)%N.
+  Let Wn := N.to_nat W.
+  Let Hn := N.to_nat H.
+
+  (** the rows one painted line occupies: as many as [wrapped_height] says, the cells of its
+      chunking (the filler only adds blanks), all of them full when the filler is written *)
+  Lemma line_rows (l : line) (fill : bool) :
+    let x := lt l ++ (if fill then filler l W else []) in
+    length (chunks Wn x) = N.to_nat (wrapped_height l W)
+    /\ rows_equiv Wn (chunks Wn x) (chunks Wn (lt l))
+    /\ (fill = true -> Forall (fun r => length r = Wn) (chunks Wn x))
+    /\ length (last (chunks Wn x) []) <= Wn
+    /\ (fill = true -> x <> []).
+  Proof using HW.
+    cbv zeta. assert (HWn : 1 <= Wn) by (unfold Wn; lia).
+    pose proof (chunk_acc_rows Wn HWn) as Hrows.
+    destruct fill.
+    - destruct (chunks_filler_equiv Wn HWn (lt l) (length (filler l W))) as (He & Hl & Hf).
+      { apply filler_length. exact HW. }
+      assert (Hfi : filler l W = repeat SP (length (filler l W))).
+      { unfold filler, spaces. now rewrite repeat_length. }
+      rewrite <- Hfi in *. rewrite Hl, wrapped_height_chunks by exact HW. rewrite Nat2N.id.
+      repeat split; try assumption.
+      + intros _. exact Hf.
+      + destruct (Hrows (lt l ++ filler l W) [] ltac:(cbn; lia)) as (_ & Hb & _). exact Hb.
+      + intros _ Hnil. pose proof (filler_length l W HW) as Hfl.
+        rewrite <- app_length, Hnil in Hfl. cbn [length] in Hfl.
+        pose proof (chunk_acc_length_pos (N.to_nat W) [] (lt l)) as Hp.
+        unfold chunks in Hfl. nia.
+    - rewrite app_nil_r, wrapped_height_chunks by exact HW. rewrite Nat2N.id.
+      repeat split; try congruence.
+      destruct (Hrows (lt l) [] ltac:(cbn; lia)) as (_ & Hb & _). exact Hb.
+  Qed.
+
+  (** the loop from element idx >= 1 on, the cursor at the end of the previous line *)
+  Lemma paint_tail : forall ls idx real total X k v,
+    (1 <= idx)%N -> total = (idx + N.of_nat (length ls))%N ->
+    X <> [] -> length (last X []) <= Wn -> v <= Hn - 1 ->
+    let P := painted ls W H real in
+    let R := paint_rows W false (Nat.eqb (length P) (length ls)) P in
+    run_ops Wn Hn (at_end X k v) (fst (paint ls idx total W H real))
+      = at_end (X ++ R) (k - length R) (Nat.min (Hn - 1) (v + length R))
+    /\ snd (paint ls idx total W H real) = (real + bar_rows P W)%N
+    /\ length (last (X ++ R) []) <= Wn.
+  Proof.
+    assert (HWn : 1 <= Wn) by (unfold Wn; lia).
+    assert (HHn : 1 <= Hn) by (unfold Hn; lia).
+    induction ls as [|l r IH]; intros idx real total X k v Hidx Htot HX Hlast Hv; cbv zeta.
+    - cbn [paint painted paint_rows fst snd length]. rewrite run_ops_nil, app_nil_r.
+      replace (k - 0) with k by lia. replace (Nat.min (Hn - 1) (v + 0)) with v by lia.
+      unfold bar_rows. cbn. repeat split; [lia | assumption].
+    - cbn [paint painted].
+      destruct (is_bar l && (H <? real + wrapped_height l W)%N) eqn:Hbrk.
+      + cbn [paint_rows fst snd length]. rewrite run_ops_nil, app_nil_r.
+        replace (k - 0) with k by lia. replace (Nat.min (Hn - 1) (v + 0)) with v by lia.
+        unfold bar_rows. cbn. repeat split; [lia | assumption].
+      + set (real' := if is_bar l then (real + wrapped_height l W)%N else real).
+        destruct (paint r (idx + 1) total W H real') as [ops rf] eqn:Epaint.
+        destruct (N.eqb_spec idx 0) as [|_]; [lia|].
+        cbn [andb orb fst snd]. rewrite orb_false_r.
+        set (P' := painted r W H real').
+        set (fillp := (idx + 1 =? total)%N).
+        assert (Hfill : fillp = (Nat.eqb (length (l :: P')) (length (l :: r))
+                                 && match P' with [] => true | _ => false end)).
+        { unfold fillp. cbn [length Nat.eqb]. destruct r as [|l2 r].
+          - cbn [painted] in P'. subst P'. cbn. apply N.eqb_eq. cbn [length] in Htot. lia.
+          - destruct P' as [|p P'']; cbn [length Nat.eqb andb].
+            + apply N.eqb_neq. cbn [length] in Htot. lia.
+            + rewrite andb_false_r. apply N.eqb_neq. cbn [length] in Htot. lia. }
+        cbn [paint_rows]. rewrite orb_false_r, <- Hfill.
+        set (x := lt l ++ (if fillp then filler l W else [])).
+        destruct (line_rows l fillp) as (Hlen1 & _ & _ & Hlast1 & _). fold x in Hlen1, Hlast1.
+        pose proof (chunk_acc_length_pos Wn [] x) as Hpos1. fold (chunks Wn x) in Hpos1.
+        pose proof (chunk_acc_nonempty Wn [] x) as Hne1. fold (chunks Wn x) in Hne1.
+        (* the calls of this element *)
+        assert (Hrun : forall t, run_ops Wn Hn t
+                   ([TLine []] ++ TStr (lt l) :: (if fillp then [TStr (filler l W)] else []) ++ ops)
+                 = run_ops Wn Hn (puts Wn Hn (exec Wn Hn t (TLine [])) x) ops).
+        { intros t. unfold x. cbn [app]. rewrite !run_ops_cons. rewrite exec_str.
+          destruct fillp; cbn [app].
+          - rewrite run_ops_cons, exec_str. now rewrite puts_app.
+          - now rewrite app_nil_r. }
+        unfold filler in Hrun. unfold spaces in Hrun at 1. fold (spaces) in Hrun.
+        change (spaces (wrapped_height l W * W - lwidth l)) with (filler l W).
+        rewrite Hrun. rewrite exec_line_at_end by assumption.
+        cbn [chunk_acc length]. rewrite <- app_removelast_last by assumption.
+        rewrite puts_app_state by (cbn; lia). cbv zeta. fold (chunks Wn x).
+        rewrite at_end_app by assumption.
+        specialize (IH (idx + 1)%N real' total (X ++ chunks Wn x)
+                       (k - 1 - (length (chunks Wn x) - 1))
+                       (Nat.min (Hn - 1) (Nat.min (Hn - 1) (v + 1) + (length (chunks Wn x) - 1)))).
+        cbv zeta in IH. rewrite Epaint in IH. cbn [fst snd] in IH.
+        destruct IH as (IHa & IHb & IHc).
+        { lia. } { cbn [length] in Htot. lia. }
+        { destruct X; [congruence | discriminate]. }
+        { rewrite last_app_ne by assumption. exact Hlast1. }
+        { lia. }
+        fold P' in IHa, IHb, IHc.
+        cbn [length Nat.eqb].
+        set (R' := paint_rows W false (Nat.eqb (length P') (length r)) P') in *.
+        rewrite IHa. rewrite <- app_assoc. rewrite app_length.
+        unfold Wn in *.
+        repeat split.
+        * f_equal; lia.
+        * rewrite IHb. unfold bar_rows, real'. cbn [filter].
+          destruct (is_bar l); [rewrite visual_line_count_cons|]; lia.
+        * rewrite <- app_assoc in IHc. exact IHc.
+  Qed.
+End Paint.
+
+Lemma rows_equiv_app W a b c d : rows_equiv W a c -> rows_equiv W b d -> rows_equiv W (a ++ b) (c ++ d).
+Proof. unfold rows_equiv. intros Ha Hb. now rewrite !map_app, Ha, Hb. Qed.
+
+Lemma rows_equiv_refl W a : rows_equiv W a a.
+Proof. reflexivity. Qed.
+
+Lemma rows_equiv_length W a b : rows_equiv W a b -> length a = length b.
+Proof. unfold rows_equiv. intros He. apply (f_equal (@length _)) in He. now rewrite !map_length in He. Qed.
+
+Lemma painted_nil_or_cons ls W H real :
+  painted ls W H real = [] \/ exists l r, ls = l :: r /\
+    (is_bar l && (H <? real + wrapped_height l W)%N) = false /\
+    painted ls W H real = l :: painted r W H (if is_bar l then (real + wrapped_height l W)%N else real).
+Proof.
+  destruct ls as [|l r]; [now left|]. cbn [painted].
+  destruct (is_bar l && (H <? real + wrapped_height l W)%N) eqn:E; [now left|].
+  right. now exists l, r.
+Qed.
+
+Section PaintSpec.
+  Variable W H : N.
+  Hypothesis HW : (1 <= W)%N.
+  Hypothesis HH : (1 <= H)%N.
+  Let Wn := N.to_nat W.
+  Let Hn := N.to_nat H.
+
+  Lemma paint_rows_nonempty first complete P : P <> [] -> paint_rows W first complete P <> [].
+  Proof.
+    destruct P as [|l P]; [congruence|]. intros _. cbn [paint_rows].
+    intros Happ. apply app_eq_nil in Happ. destruct Happ as [Hc _].
+    exact (chunk_acc_nonempty _ _ _ Hc).
+  Qed.
+
+  (** what the loop writes is, cell for cell, the wrapping of the painted lines (the fillers only
+      add blanks), and occupies [visual_line_count] rows *)
+  Lemma paint_rows_equiv : forall P first complete,
+    rows_equiv Wn (paint_rows W first complete P) (wrap Wn (map lt P))
+    /\ length (paint_rows W first complete P) = N.to_nat (visual_line_count P W).
+  Proof.
+    induction P as [|l P IH]; intros first complete.
+    - split; reflexivity.
+    - cbn [paint_rows map]. unfold wrap. cbn [map concat]. fold (wrap Wn (map lt P)).
+      destruct (IH false complete) as (He & Hl).
+      match goal with |- context [if ?b then filler l W else []] =>
+        destruct (line_rows W HW l b) as (Hl1 & He1 & _) end.
+      split.
+      + apply rows_equiv_app; assumption.
+      + rewrite app_length, visual_line_count_cons, Hl. fold Wn. rewrite Hl1. lia.
+  Qed.
+
+  Lemma paint_rows_last_full : forall P first, P <> [] ->
+    length (last (paint_rows W first true P) []) = Wn.
+  Proof.
+    induction P as [|l P IH]; intros first HP; [congruence|].
+    cbn [paint_rows]. destruct P as [|l2 P].
+    - cbn [paint_rows andb orb]. rewrite app_nil_r.
+      destruct (line_rows W HW l true) as (_ & _ & Hf & _).
+      apply (Forall_last (fun r => length r = Wn)); [apply chunk_acc_nonempty | now apply Hf].
+    - rewrite last_app_ne by (apply paint_rows_nonempty; discriminate).
+      apply IH. discriminate.
+  Qed.
+
+  (** (c) the paint loop from a ready cursor.  [P] = the lines painted before the [break]. *)
+  Lemma paint_spec C t ls : ready Wn Hn C t ->
+    let P := painted ls W H 0 in
+    let complete := Nat.eqb (length P) (length ls) in
+    let R := paint_rows W true complete P in
+    let ops := fst (paint ls 0 (N.of_nat (length ls)) W H 0) in
+    snd (paint ls 0 (N.of_nat (length ls)) W H 0) = bar_rows P W
+    /\ (P = [] -> ops = [])
+    /\ (P <> [] -> exists k,
+          run_ops Wn Hn t ops = at_end (C ++ R) k (Nat.min (Hn - 1) (reach t + length R - 1))
+          /\ length (last (C ++ R) []) <= Wn).
+  Proof.
+    assert (HWn : 1 <= Wn) by (unfold Wn; lia).
+    assert (HHn : 1 <= Hn) by (unfold Hn; lia).
+    intros Hr. cbv zeta.
+    destruct ls as [|l r].
+    - cbn. repeat split; congruence.
+    - cbn [paint painted].
+      destruct (is_bar l && (H <? 0 + wrapped_height l W)%N) eqn:Hbrk.
+      + cbn [fst snd]. unfold bar_rows. cbn. repeat split; congruence.
+      + set (real' := if is_bar l then (0 + wrapped_height l W)%N else 0%N).
+        destruct (paint r (0 + 1) (N.of_nat (length (l :: r))) W H real') as [ops rf] eqn:Epaint.
+        cbn [N.eqb andb orb fst snd app].
+        set (P' := painted r W H real').
+        set (fillp := ((0 + 1 =? N.of_nat (length (l :: r)))%N || (lwidth l =? 0)%N)).
+        assert (Hfill : fillp = (Nat.eqb (length (l :: P')) (length (l :: r))
+                                 && match P' with [] => true | _ => false end
+                                 || true && (lwidth l =? 0)%N)).
+        { unfold fillp. cbn [length Nat.eqb andb]. f_equal. destruct r as [|l2 r].
+          - cbn [painted] in P'. subst P'. reflexivity.
+          - destruct P' as [|p P'']; cbn [length Nat.eqb andb].
+            + apply N.eqb_neq. lia.
+            + rewrite andb_false_r. apply N.eqb_neq. lia. }
+        cbn [paint_rows]. rewrite <- Hfill.
+        set (x := lt l ++ (if fillp then filler l W else [])).
+        destruct (line_rows W HW l fillp) as (Hlen1 & _ & _ & Hlast1 & Hxne). fold x in Hlen1, Hlast1, Hxne.
+        pose proof (chunk_acc_nonempty (N.to_nat W) [] x) as Hne1. fold (chunks (N.to_nat W) x) in Hne1.
+        pose proof (chunk_acc_length_pos (N.to_nat W) [] x) as Hpos1. fold (chunks (N.to_nat W) x) in Hpos1.
+        assert (Hx : x <> [] \/ t_col t = 0).
+        { left. destruct (lt l) as [|c s] eqn:Elt.
+          - apply Hxne. unfold fillp, lwidth, tlen. rewrite Elt. cbn. apply orb_true_r.
+          - unfold x. rewrite Elt. discriminate. }
+        destruct (str_spec Wn Hn C t x HWn HHn Hr Hx) as (k1 & Hputs).
+        destruct (paint_tail W H HW HH r (0 + 1)%N real' (N.of_nat (length (l :: r)))
+                    (C ++ chunks Wn x) k1
+                    (Nat.min (Hn - 1) (reach t + length (chunks Wn x) - 1))) as (Ta & Tb & Tc).
+        { lia. } { cbn [length]. lia. }
+        { destruct C; [cbn; exact Hne1 | discriminate]. }
+        { rewrite last_app_ne by exact Hne1. exact Hlast1. }
+        { lia. }
+        rewrite Epaint in Ta, Tb. cbn [fst snd] in Ta, Tb. fold P' in Ta, Tb, Tc.
+        cbn [length Nat.eqb].
+        set (R' := paint_rows W false (Nat.eqb (length P') (length r)) P') in *.
+        split; [|split; [congruence|]].
+        * rewrite Tb. unfold bar_rows, real'. cbn [filter].
+          destruct (is_bar l); [rewrite visual_line_count_cons|]; lia.
+        * intros _. exists (k1 - length R').
+          assert (Hrun : run_ops Wn Hn t
+                   (TStr (lt l) :: (if fillp then [TStr (spaces (wrapped_height l W * W - lwidth l))] else []) ++ ops)
+                   = run_ops Wn Hn (puts Wn Hn t x) ops).
+          { unfold x, filler. rewrite run_ops_cons, exec_str. destruct fillp; cbn [app].
+            - rewrite run_ops_cons, exec_str. now rewrite puts_app.
+            - now rewrite app_nil_r. }
+          rewrite Hrun, Hputs, Ta. unfold Wn in *. rewrite <- !app_assoc in *. rewrite app_length.
+          split; [f_equal; lia | exact Tc].
+  Qed.
+End PaintSpec.
